@@ -77,10 +77,14 @@ ENUM_SPACE = "worklists with exactly n records for n in {0,1,2,63,64,65,127,128,
 
 
 def enumerate_cases(tier):
-    for n in (0, 1, 2, 63, 64, 65, 127, 128, 129, 255, 256, 257, 511, 512, 513, 767, 768, 769, 1023, 1024, 1025):
+    for n in (0, 1, 2, 63, 64, 65, 99, 100, 101, 127, 128, 129, 255, 256, 257, 499, 500, 501, 511, 512, 513, 767, 768, 769, 999, 1000, 1001, 1023, 1024, 1025, 1999, 2000, 2001, 3000, 4096):
         for mode in ("save", "with"):
             steps = [{"m": "bulk", "n": n}] if n else []
             yield {"mode": mode, "name": "out.gwl", "path_kind": "str", "pre": "longer", "pre_bytes": "00ff", "steps": steps, "steps2": [], "shrink_second": False}
+    # an earlier file of the same name that already holds the same records with other line breaks (copied from another system)
+    for pre in ("same-lf", "same-cr", "same-crlf-trailing"):
+        for mode in ("save", "with"):
+            yield {"mode": mode, "name": "out.gwl", "path_kind": "str", "pre": pre, "pre_bytes": "00", "steps": [{"m": "bulk", "n": 3}, {"m": "flush"}], "steps2": [], "shrink_second": False}
 
 
 def _apply(wl, steps):
@@ -147,7 +151,12 @@ def check_case(case) -> Obs:
         _apply(probe, case["steps"])
         expected_len = len(_oracle(list(probe)))
         pre = case["pre"]
-        if pre in ("shorter", "longer"):
+        if pre in ("same-lf", "same-cr", "same-crlf-trailing"):
+            sep = {"same-lf": "\n", "same-cr": "\r", "same-crlf-trailing": "\r\n"}[pre]
+            text = sep.join(list(probe)) + ("\r\n" if pre == "same-crlf-trailing" else "")
+            with open(path, "wb") as fh:
+                fh.write(text.encode("latin-1"))
+        elif pre in ("shorter", "longer"):
             blob = case["pre_bytes"]
             if isinstance(blob, str):
                 blob = bytes.fromhex(blob)
